@@ -290,8 +290,10 @@ pub fn str_to_dec(lit: &str) -> Result<(i128, isize), ParseDecimalError> {
                 }
                 _ => false,
             };
+            // leading zeroes do not count for the limit of the exponent
+            let n_exp_zeroes = lit.len() - lit.skip_leading_zeroes().len();
             let n_exp_digits = lit.accum_exp(&mut exp);
-            if n_exp_digits == 0 {
+            if n_exp_zeroes + n_exp_digits == 0 {
                 return Err(ParseDecimalError::Invalid);
             }
             if exp_is_negative {
